@@ -408,6 +408,8 @@ def r14_3(ctx):
             t = U(dec.func) if isinstance(dec, ast.Call) else U(dec)
             if t.split(".")[-1] in ("lru_cache", "cache", "cached_property"):
                 memo.append(f"{fi.qual}:{fi.node.lineno} @{t}")
+    lazy_state_checks(ctx)
+    registry_commit_point(ctx)
     ctx.check("no mutable default argument (one object shared by all calls)", not mut_defaults, "none", "; ".join(mut_defaults[:3]) or "none", "rzilcompiler/")
     ctx.check("no memoising decorator (results of earlier calls handed out again)", not memo, "none", "; ".join(memo[:3]) or "none", "rzilcompiler/")
     # compile_insn must (re)compile, not return a cached result
@@ -419,6 +421,60 @@ def r14_3(ctx):
     rets = [p for p in paths_of(fi.node) if p.outcome == "return"]
     early = [p for p in rets if not any(e.kind == "loop" for e in p.events)]
     ctx.check("transform_insn has no early return before compiling the parts", not early, "every return follows the per-part loop", str([p.guard_text()[:60] for p in early]), fn_where(idx, fi))
+
+
+LAZY_ITERATORS = {"map", "filter", "zip", "iter", "reversed", "enumerate", "imap", "islice", "chain"}
+AFTER_COMMIT_OK = {"log", "update_sub_routines", "update_macros", "print", "debug", "info", "warning", "reset"}  # reset: the clean-up in `finally`
+
+
+def lazy_state_checks(ctx):
+    """state that outlives one call can be consulted again: no attribute of a long-lived object (and no class-level name) is bound to a
+    one-shot iterator - the first membership test or loop would consume it and the second would see something else"""
+    idx = get_index(ctx.env)
+    bad = []
+    n = 0
+    for fi in idx.funcs.values():
+        if ".Tests" in fi.module or fi.cls is None:
+            continue
+        for node in ast.walk(fi.node):
+            if not isinstance(node, (ast.Assign, ast.AnnAssign)) or node.value is None:
+                continue
+            tgts = node.targets if isinstance(node, ast.Assign) else [node.target]
+            for t in tgts:
+                if isinstance(t, ast.Attribute) and isinstance(t.value, ast.Name) and (t.value.id == "self" or t.value.id in idx.classes):
+                    n += 1
+                    v = node.value
+                    lazy = isinstance(v, ast.GeneratorExp) or (isinstance(v, ast.Call) and U(v.func).split(".")[-1] in LAZY_ITERATORS)
+                    if lazy:
+                        bad.append(f"{fi.qual}:{node.lineno} {U(node)[:70]}")
+    ctx.check("no attribute holds a one-shot iterator", not bad and n >= 100, "attributes are bound to re-iterable values (list / dict / set / tuple ...)", "; ".join(bad[:3]) or f"{n} attribute bindings inspected", "rzilcompiler/")
+
+
+def registry_commit_point(ctx):
+    """an entry is put into a shared (class-level) registry only when everything that can fail has run: a call that fails after the
+    store would leave the half-built entry behind for every later call and every other instance"""
+    idx = get_index(ctx.env)
+    n = 0
+    for (c, a) in REGISTRY_READERS:
+        for fi in idx.funcs.values():
+            if ".Tests" in fi.module:
+                continue
+            stores = [nd for nd in ast.walk(fi.node) if isinstance(nd, ast.Assign) and any(isinstance(t, ast.Subscript) and isinstance(t.value, ast.Attribute) and t.value.attr == a
+                                                                                            and isinstance(t.value.value, ast.Name) and t.value.value.id in ("self", c) for t in nd.targets)]
+            if not stores or (fi.cls != c and not any(isinstance(t.value.value, ast.Name) and t.value.value.id == c for nd in stores for t in nd.targets if isinstance(t, ast.Subscript))):
+                continue
+            late = []
+            for p in paths_of(fi.node):
+                seen_store = None
+                for e in p.events:
+                    if e.kind == "store" and isinstance(e.node, ast.Subscript) and isinstance(e.node.value, ast.Attribute) and e.node.value.attr == a:
+                        seen_store = e.lineno
+                    elif seen_store is not None and e.kind == "call" and isinstance(e.node, ast.Call) and call_tail(e.node) not in AFTER_COMMIT_OK and e.lineno > seen_store:
+                        late.append(f"line {e.lineno}: {U(e.node)[:50]} after the store in line {seen_store}")
+            n += 1
+            ctx.check(f"{fi.qual}: {c}.{a}[...] is stored after the last step that can fail", not late, "store, then only logging / handing the registry on",
+                      "; ".join(sorted(set(late))[:3]) or "ok", fn_where(idx, fi))
+    ctx.check("registry writers found", n >= 2, ">= 2 functions store into a shared registry", str(n), "rzilcompiler/", nontrivial=False)
 
 
 @rule("R14.4", "C14", "no in-place mutation of possibly shared/persistent type objects", min_instances=3)
